@@ -632,13 +632,33 @@ def r11_reply_for_no_pending_call_is_fatal(ctx):
     R.floor("C18.R11", n, 2, "arms of the reply classification that must be fatal")
 
 
+def r12_dropping_a_handle_tells_the_background_task(ctx):
+    """whatever a handle stood for - a subscription or a registered notification handler - dropping it announces that to
+    the background task (`SubscriptionClosed` / `UnregisterNotification`), which removes the entry. A kind that is left to
+    be found out later (`the next notification for that method will notice the closed receiver`) stays registered for as
+    long as the server sends nothing more for it: one entry per handle ever dropped, and the name cannot be registered again."""
+    F, R = ctx.F, ctx.R
+    bs = [b for p_, b in F.bodies.items() if re.search(r"^<jsonrpsee_core::client::Subscription<Notif> as std::ops::Drop>::drop$", p_)]
+    if len(bs) != 1:
+        raise AnchorLost("Drop for Subscription")
+    kinds = set()
+    for x in F.nested(bs[0]):
+        R.fn(x)
+        for blk in x.blocks:
+            for st in blk["st"]:
+                if st["s"] == "assign" and st["rv"]["k"] == "agg" and (st["rv"].get("adt") or "").endswith("client::FrontToBack"):
+                    kinds.add(st["rv"]["variant"])
+    sends = [c for x in F.nested(bs[0]) for c in x.calls_to(r"mpsc::(bounded::)?Sender::<.*>::(try_send|send|blocking_send)$")]
+    R.check({"SubscriptionClosed", "UnregisterNotification"} <= kinds and bool(sends), "C18.R12", "drop:announces-both-kinds", "dropping a handle announces a subscription and a notification handler alike", "Drop for Subscription announces %s only: the other kind of handle stays registered in the request manager after it was dropped" % (sorted(kinds) or "nothing"), "%s:%d" % (bs[0].file, bs[0].lo))
+
+
 def rkeys_manager_keys_not_derived(ctx):
     """ids are matched exactly"""
     from .common import manager_keys_not_derived
     manager_keys_not_derived(ctx, "C18.KEYS")
 
 
-RULES = [r10_explicit_unsubscribe_is_not_best_effort, r9_one_ordered_queue_into_the_send_task, r7_failed_write_ends_the_task, r8_handoff_queue_is_lossless, r1_effect_summaries, r2_ledger, r3_notification_arms, r4_lost_drop_is_recovered, r5_no_unaccounted_success_path, r6_no_state_outside_the_manager, rarr_every_element, rkeys_manager_keys_not_derived, r11_reply_for_no_pending_call_is_fatal] + BORROWED
+RULES = [r10_explicit_unsubscribe_is_not_best_effort, r9_one_ordered_queue_into_the_send_task, r7_failed_write_ends_the_task, r8_handoff_queue_is_lossless, r1_effect_summaries, r2_ledger, r3_notification_arms, r4_lost_drop_is_recovered, r5_no_unaccounted_success_path, r6_no_state_outside_the_manager, rarr_every_element, rkeys_manager_keys_not_derived, r11_reply_for_no_pending_call_is_fatal, r12_dropping_a_handle_tells_the_background_task] + BORROWED
 
 LEVEL_TEXT = (
     "A ledger over the client's four private tables decided from the type-checked program: per-method effect summaries "
